@@ -14,10 +14,10 @@ var confirmedCounts = map[string]map[string][2]int{ // rule -> prop -> {default,
 	"R5":  {"C11": {9, 11}},
 	"R6":  {"C04": {9, 9}, "C16": {0, 30}, "C17": {28, 28}, "C18": {19, 44}, "C19": {19, 74}, "C20": {9, 9}},
 	"R7":  {"C17": {26, 29}, "C19": {22, 25}},
-	"R8":  {"C18": {12, 15}},
+	"R8":  {"C18": {19, 23}},
 	"R9":  {"C20": {14, 14}},
 	"R10": {"C10": {61, 70}},
-	"R11": {"C07": {3, 3}, "C08": {3, 3}},
+	"R11": {"C07": {10, 10}, "C08": {10, 10}},
 	"R12": {"C06": {11, 11}, "C07": {16, 17}, "C13": {5, 5}},
 	"R13": {"C01": {5, 5}, "C03": {5, 5}, "C06": {9, 9}, "C09": {9, 9}},
 	"R14": {"C01": {28, 28}, "C04": {28, 28}, "C09": {28, 28}},
@@ -31,11 +31,11 @@ var confirmedCounts = map[string]map[string][2]int{ // rule -> prop -> {default,
 	"R22": {"C16": {0, 18}},
 	"R23": {"C14": {0, 14}},
 	"R24": {"C05": {4, 4}, "C06": {5, 5}, "C13": {2, 2}, "C15": {1, 3}},
-	"R25": {"C05": {6, 6}, "C06": {18, 18}, "C09": {17, 17}, "C13": {9, 9}, "C15": {1, 5}},
+	"R25": {"C05": {10, 10}, "C06": {18, 18}, "C09": {17, 17}, "C13": {9, 9}, "C15": {1, 5}},
 	"R26": {"C02": {1, 1}, "C03": {4, 4}, "C04": {3, 3}, "C05": {5, 5}, "C06": {4, 4}, "C13": {2, 2}},
-	"R27": {"C02": {3, 3}, "C03": {2, 2}, "C04": {3, 3}, "C09": {9, 9}},
+	"R27": {"C02": {6, 6}, "C03": {2, 2}, "C04": {3, 3}, "C09": {12, 12}},
 	"R28": {"C01": {3, 3}, "C06": {7, 7}},
-	"R29": {"C01": {3, 3}, "C06": {3, 3}},
+	"R29": {"C01": {6, 6}, "C06": {6, 6}},
 	"R30": {"C01": {2, 2}, "C09": {2, 2}},
 	"R31": {"C01": {3, 3}, "C03": {2, 2}, "C06": {1, 1}, "C07": {3, 3}},
 	"R32": {"C06": {7, 7}, "C08": {7, 7}, "C09": {7, 7}},
